@@ -5,7 +5,7 @@ open Model
 (* ---------- S-expressions ---------- *)
 type sx = Atom of string | Node of string * sx list | List of sx list
 
-let tokenize (s : string) : string list =
+let sx_tokens (s : string) : string list =
   let out = ref [] and cur = Buffer.create 16 in
   let flush () = if Buffer.length cur > 0 then (out := Buffer.contents cur :: !out; Buffer.clear cur) in
   String.iter (fun c ->
@@ -18,7 +18,7 @@ let tokenize (s : string) : string list =
 exception Bad of string
 
 let parse_sx (s : string) : sx =
-  let toks = ref (tokenize s) in
+  let toks = ref (sx_tokens s) in
   let next () = match !toks with [] -> raise (Bad "eof") | t :: r -> toks := r; t in
   let peek () = match !toks with [] -> raise (Bad "eof") | t :: _ -> t in
   let rec go () =
@@ -149,6 +149,47 @@ let rec pexpr (e : pexpr) : string =
   | PAttr (v, s) -> "(Attribute " ^ pexpr v ^ " " ^ hs s ^ ")"
   | PTuple es -> "(Tuple " ^ l es ^ ")" | PList es -> "(List " ^ l es ^ ")" | PSet es -> "(Set " ^ l es ^ ")"
 
+
+(* ---------- lexer ---------- *)
+let rec pos_to_int = function XH -> 1 | XO p -> 2 * pos_to_int p | XI p -> 2 * pos_to_int p + 1
+let z_to_int = function Z0 -> 0 | Zpos p -> pos_to_int p | Zneg p -> - (pos_to_int p)
+
+let kind (t : token) : string =
+  match t with
+  | MFrom -> "From" | MType -> "Type" | MClass -> "Class" | MPure -> "Pure" | MIsA -> "IsA" | MAs -> "As"
+  | MImport -> "Import" | MForward -> "Forward" | MPoint -> "Point" | MComma -> "Comma"
+  | MDoublePoint -> "DoublePoint" | MVararg -> "Vararg" | MBSlash -> "BSlash" | MId _ -> "Id" | MFin -> "Fin"
+  | MAssign -> "Assign" | MAddAssign -> "AddAssign" | MSubAssign -> "SubAssign" | MMulAssign -> "MulAssign"
+  | MDivAssign -> "DivAssign" | MPowAssign -> "PowAssign" | MBLShiftAssign -> "BLShiftAssign"
+  | MBRShiftAssign -> "BRShiftAssign" | MDef -> "Def" | MReal _ -> "Real" | MInt _ -> "Int" | MENum _ -> "ENum"
+  | MStr _ -> "Str" | MDocStr _ -> "DocStr" | MRange -> "Range" | MRangeIncl -> "RangeIncl" | MSlice -> "Slice"
+  | MSliceIncl -> "SliceIncl" | MAdd -> "Add" | MSub -> "Sub" | MMul -> "Mul" | MDiv -> "Div" | MFDiv -> "FDiv"
+  | MPow -> "Pow" | MMod -> "Mod" | MSqrt -> "Sqrt" | MBAnd -> "BAnd" | MBOr -> "BOr" | MBXOr -> "BXOr"
+  | MBOneCmpl -> "BOneCmpl" | MBLShift -> "BLShift" | MBRShift -> "BRShift" | MGe -> "Ge" | MGeq -> "Geq"
+  | MLe -> "Le" | MLeq -> "Leq" | MEq -> "Eq" | MIs -> "Is" | MNeq -> "Neq" | MAnd -> "And" | MOr -> "Or"
+  | MNot -> "Not" | MLRBrack -> "LRBrack" | MRRBrack -> "RRBrack" | MLSBrack -> "LSBrack" | MRSBrack -> "RSBrack"
+  | MLCBrack -> "LCBrack" | MRCBrack -> "RCBrack" | MVer -> "Ver" | MTo -> "To" | MBTo -> "BTo" | MNL -> "NL"
+  | MIndent -> "Indent" | MDedent -> "Dedent" | MUnderscore -> "Underscore" | MRaise -> "Raise" | MWhen -> "When"
+  | MWhile -> "While" | MFor -> "For" | MIn -> "In" | MIf -> "If" | MThen -> "Then" | MMatch -> "Match"
+  | MElse -> "Else" | MDo -> "Do" | MContinue -> "Continue" | MBreak -> "Break" | MRet -> "Ret" | MWith -> "With"
+  | MQuestion -> "Question" | MHandle -> "Handle" | MPass -> "Pass" | MComment _ -> "Comment" | MEof -> "Eof"
+
+let lex_cmd (payload : string) : string =
+  let src = explode (unhex payload) in
+  match tokenize src with
+  | LexOk ts ->
+      "OK\t" ^ String.concat ";" (List.map (fun l ->
+        Printf.sprintf "%s%s,%s,%d,%d,%d,%d" (if l.lnested then "Str." else "") (kind l.ltok)
+          (hex (implode (spell l.ltok)))
+          (z_to_int l.lstart.line) (z_to_int l.lstart.col) (z_to_int l.lend.line) (z_to_int l.lend.col)) ts)
+  | LexErr (p, e) ->
+      let msg = match e with
+        | ErrCR -> "return carriage not followed by newline"
+        | ErrBang -> "'!' is not a valid character on its own"
+        | ErrChar c -> "unrecognized character: " ^ String.make 1 c in
+      Printf.sprintf "ERR\t%d\t%d\t%s" (z_to_int p.line) (z_to_int p.col) (hex msg)
+  | OutOfFuel -> "BAD\tout of fuel"
+
 let rec nat_of_int n = if n <= 0 then O else S (nat_of_int (n - 1))
 
 let split_tab s = String.split_on_char '\t' s
@@ -168,6 +209,7 @@ let handle cmd payload =
       (match py_parse fuel toks with
        | Some e -> "OK\t" ^ pexpr e
        | None -> "NONE")
+  | "lex" -> lex_cmd payload
   | "tableok" -> if table_ok generated then "OK\tT" else "OK\tF"
   | _ -> "BAD\tunknown command"
 
